@@ -360,6 +360,19 @@ def gen_c14(tier, rng):
                     env[i.env] = rng.choice(["v", "TRUE", "off", "bad word"])
             steps.append((env, [rng.choice(al) for _ in range(rng.below(6))] if rng.chance(3, 4) else rng.choice(vecs)))
         out.append(hcase(dd, steps))
+    # a second declaration: defaults of every kind, non-zero toggle defaults, a greedy limit
+    d2 = D([O("t", "lvl", "l", dflt=2, flag=True), O("t", "on", "n", dflt=1), O("o", "out", "o", dflt="dv"),
+            O("m", "inc", "I", dflt=["d1", "d2"]), O("o", "req", "r", env="NV_R", flag=True)], allowed=None, greedy=True)
+    vecs2 = [[], ["-l"], ["-ll"], ["--lvl", "--on"], ["--no-lvl"], ["-n"], ["--out", "x"], ["-I", "a", "-I", "b"], ["p", "-l"],
+             ["--", "-l"], ["-o=y", "-nn"], ["--zz"]]
+    for a in vecs2:
+        for b in vecs2:
+            out.append(hcase(d2, [({}, a), ({}, b)]))
+    for a, b, c in itertools.product(vecs2[:8], repeat=3) if big else []:
+        out.append(hcase(d2, [({}, a), ({"NV_R": "e"}, b), ({}, c)]))
+    # the same histories with the parser object moved between the parses
+    hs = [c for c in out if "\tH\t" in c]
+    out += [c.replace("\tH\t", "\tHM\t", 1) for c in rng.shuffle(hs)[:(4000 if big else 800)]]
     return out
 
 
